@@ -191,6 +191,52 @@ theorem ite_truthy_bool_and (d e : Bool) :
     (if truthy (Val.bool d) = true then (Except.ok (Val.bool e) : Except Err Val) else Except.ok (Val.bool d))
       = .ok (.bool (d && e)) := by cases d <;> rfl
 
+/-! ### remaining second-round constructs: text tests, slices, `frombuffer`, literals -/
+
+theorem joinEmpty_nil : joinEmpty [] = [] := rfl
+theorem joinEmpty_endsSep (a : List Nat) : joinEmpty (a ++ [47]) = a ++ [47] := by
+  simp [joinEmpty]
+theorem joinEmpty_noSep (a : List Nat) (c : Nat) (h : c ≠ 47) : joinEmpty (a ++ [c]) = a ++ [c] ++ [47] := by
+  simp [joinEmpty, h]
+theorem beU32_len (l : List Int) (h : l.length ≠ 4) : beU32 l = .error .unsupported := by
+  match l, h with
+  | [], _ => rfl
+  | [_], _ => rfl
+  | [_, _], _ => rfl
+  | [_, _, _], _ => rfl
+  | _ :: _ :: _ :: _ :: _ :: _, _ => rfl
+  | [_, _, _, _], h => simp at h
+theorem beU32_nat (a b c d : Nat) (ha : a < 256) (hb : b < 256) (hc : c < 256) (hd : d < 256) :
+    beU32 [(a : Int), b, c, d] = .ok ((((a * 256 + b) * 256 + c) * 256 + d : Nat) : Int) := by
+  have h : (0 ≤ (a : Int) ∧ (a : Int) < 256 ∧ 0 ≤ (b : Int) ∧ (b : Int) < 256 ∧ 0 ≤ (c : Int) ∧ (c : Int) < 256 ∧
+      0 ≤ (d : Int) ∧ (d : Int) < 256) := by omega
+  simp only [beU32]
+  rw [if_pos h]
+  congr 1
+theorem eval_boolc (env : Env) (b : Bool) : eval env (.boolc b) = .ok (.bool b) := rfl
+theorem eval_strc (env : Env) (cs : List Nat) : eval env (.strc cs) = .ok (.str cs) := rfl
+theorem eval_inInts (env : Env) (e : Expr) (l : List Int) (i : Int) (h : eval env e = .ok (.int i)) :
+    eval env (.inInts e l) = .ok (.bool (l.contains i)) := by
+  simp only [eval, h, bind_ok', asInt_int]
+theorem eval_startswith (env : Env) (a b : Expr) (x y : List Nat) (ha : eval env a = .ok (.str x))
+    (hb : eval env b = .ok (.str y)) : eval env (.startswith a b) = .ok (.bool (y.isPrefixOf x)) := by
+  simp only [eval, ha, hb, bind_ok']
+theorem eval_takeN (env : Env) (e : Expr) (cs : List Nat) (n : Nat) (h : eval env e = .ok (.str cs)) :
+    eval env (.takeN e n) = .ok (.str (cs.take n)) := by
+  simp only [eval, h, bind_ok']
+theorem eval_dropN (env : Env) (e : Expr) (cs : List Nat) (n : Nat) (h : eval env e = .ok (.str cs)) :
+    eval env (.dropN e n) = .ok (.str (cs.drop n)) := by
+  simp only [eval, h, bind_ok']
+theorem eval_eqStr (env : Env) (a b : Expr) (x y : List Nat) (ha : eval env a = .ok (.str x))
+    (hb : eval env b = .ok (.str y)) : eval env (.eqStr a b) = .ok (.bool (decide (x = y))) := by
+  simp only [eval, ha, hb, bind_ok']
+theorem eval_neg (env : Env) (e : Expr) (i : Int) (h : eval env e = .ok (.int i)) :
+    eval env (.neg e) = .ok (.int (-i)) := by
+  simp only [eval, h, bind_ok', asInt_int]
+theorem eval_rev_str (env : Env) (e : Expr) (cs : List Nat) (h : eval env e = .ok (.str cs)) :
+    eval env (.rev e) = .ok (.str cs.reverse) := by
+  simp only [eval, h, bind_ok']
+
 /-- symbolic execution for blocks that use the second-round constructs -/
 macro "mp_sym" : tactic => `(tactic|
   (simp (decide := true) only [runItem, exec, eval, bind_ok', bind_error', lookup_cons_eq, lookup_cons_ne,
